@@ -71,6 +71,11 @@ pub struct Ctx {
     pub readable: Option<Poll>,
     /// the next `read` / `recv_from` fails with an error other than `WouldBlock`
     pub read_fails: bool,
+    /// errors armed for successive dispatches (the `stack` component): the head is consumed by the
+    /// next call of its name, then the next entry becomes the head
+    pub inject_queue: VecDeque<(&'static str, Inject)>,
+    /// number of `is_readable` calls (the closed-loop run of `stack` delimits iterations with it)
+    pub readable_calls: u64,
 }
 
 impl Ctx {
@@ -78,6 +83,7 @@ impl Ctx {
         Self {
             ops: vec![], queue: VecDeque::new(), inject: None, tcp: TcpState::Other,
             socks: vec![], dropped: vec![], polled: vec![], readable: None, read_fails: false,
+            inject_queue: VecDeque::new(), readable_calls: 0,
         }
     }
 }
@@ -107,6 +113,8 @@ pub fn reset() {
         c.polled.clear();
         c.readable = None;
         c.read_fails = false;
+        c.inject_queue.clear();
+        c.readable_calls = 0;
     });
 }
 /// forget the recorded calls of the previous operation, keep the sockets
@@ -118,7 +126,28 @@ pub fn clear_ops() {
         c.queue.clear();
         c.inject = None;
         c.read_fails = false;
+        c.inject_queue.clear();
     });
+}
+/// arm errors for successive dispatches
+pub fn arm_queue(q: &[(&'static str, Inject)]) {
+    CTX.with(|c| c.borrow_mut().inject_queue = q.iter().copied().collect());
+}
+pub fn clear_inject() {
+    CTX.with(|c| {
+        let mut c = c.borrow_mut();
+        c.inject = None;
+        c.inject_queue.clear();
+    });
+}
+/// per-`is_readable` hook of the closed-loop run: called with the number of the call, returns the
+/// answer (the hook advances the virtual clock and queues datagrams itself)
+pub type ReadableHook = Box<dyn FnMut(u64) -> Poll>;
+thread_local! {
+    static HOOK: RefCell<Option<ReadableHook>> = const { RefCell::new(None) };
+}
+pub fn set_readable_hook(h: Option<ReadableHook>) {
+    HOOK.with(|x| *x.borrow_mut() = h);
 }
 pub fn socket_count() -> usize {
     CTX.with(|c| c.borrow().socks.len())
@@ -182,7 +211,14 @@ fn failing(call: &str) -> Option<io::Error> {
                 c.inject = None;
                 Some(e.make())
             }
-            _ => None,
+            Some(_) => None,
+            None => match c.inject_queue.front().copied() {
+                Some((name, e)) if name == call => {
+                    c.inject_queue.pop_front();
+                    Some(e.make())
+                }
+                _ => None,
+            },
         }
     })
 }
@@ -296,6 +332,15 @@ impl Socket for SimSocket {
         failing("send").map_or(Ok(()), |e| Err(IoError::SendTo(e, addr)))
     }
     fn is_readable(&mut self, _timeout: Duration) -> IoResult<bool> {
+        let n = CTX.with(|c| { let mut c = c.borrow_mut(); c.readable_calls += 1; c.readable_calls });
+        let hooked = HOOK.with(|h| h.borrow_mut().as_mut().map(|f| f(n)));
+        if let Some(p) = hooked {
+            return match p {
+                Poll::Yes => Ok(true),
+                Poll::No => Ok(false),
+                Poll::Fails => Err(IoError::Other(io::Error::from(io::ErrorKind::PermissionDenied), IoOperation::Select)),
+            };
+        }
         match CTX.with(|c| { let c = c.borrow(); c.readable.unwrap_or(if c.queue.is_empty() { Poll::No } else { Poll::Yes }) }) {
             Poll::Yes => Ok(true),
             Poll::No => Ok(false),
